@@ -5,6 +5,7 @@ From PyxisModel Require C03Core.
 From PyxisModel Require Import Syntax.
 From PyxisModel Require WholeBuild OrderIndep.
 From PyxisModel Require SyntaxItems ModuleEq.
+From PyxisModel Require IntLit.
 Local Open Scope string_scope.
 Local Open Scope list_scope.
 
@@ -191,7 +192,27 @@ Definition run_c18m (args : list sexp) : sexp :=
   | _ => SList [Atom "c18m"; Atom "bad_case"]
   end.
 
+(** integer literal spelling (IntLit.v), as pyxis reads a literal token with [base10_parse::<isize>] /
+    [::<usize>]:   (lit isize|usize NEG "text")  ->  (lit ok VALUE) | (lit err)      NEG = 1 when a [-] precedes *)
+Definition run_lit (args : list sexp) : sexp :=
+  match args with
+  | [Atom kind; Atom neg; Str s] =>
+    let ng := String.eqb neg "1" in
+    if String.eqb kind "isize" then
+      match IntLit.read_isize ng s with
+      | Some z => SList [Atom "lit"; Atom "ok"; sZ z]
+      | None => SList [Atom "lit"; Atom "err"]
+      end
+    else
+      match IntLit.read_usize ng s with
+      | Some n => SList [Atom "lit"; Atom "ok"; sN n]
+      | None => SList [Atom "lit"; Atom "err"]
+      end
+  | _ => SList [Atom "lit"; Atom "bad_case"]
+  end.
+
 Definition run_case_sexp (e : sexp) : sexp :=
+  match tagged "lit" e with Some args => run_lit args | None =>
   match tagged "c18m" e with Some args => run_c18m args | None =>
   match tagged "c18" e with Some args => run_c18 args | None =>
   match tagged "c03" e with Some fields => run_c03 fields | None =>
@@ -202,7 +223,7 @@ Definition run_case_sexp (e : sexp) : sexp :=
     | x => x
     end
   | None => SList [Atom "model"; SList [Atom "bad_case"]]
-  end end end end.
+  end end end end end.
 
 (** text in, text out: one result line per case *)
 Definition run_cases (input : string) : list string :=
